@@ -77,7 +77,11 @@ TrCopy == /\ IsOp("copy")
           /\ Clause("copy_equal", Ev[l].equal)
           /\ Clause("copy_independent", Ev[l].independent)
 
-TraceNext == TrRead \/ TrRewrite \/ TrRewrite2 \/ TrTopo \/ TrTopo2 \/ TrGraph \/ TrConn \/ TrCopy
+(* a topology of more than a megabyte (a polymer): line counts per section, read / written back / read again *)
+TrBig == /\ IsOp("big")
+         /\ Clause("section_names_in_order_of_first_appearance", Ev[l].names_ok)
+         /\ Clause("section_lines", Ev[l].read = Ev[l].nlines /\ Ev[l].rewritten = Ev[l].nlines /\ Ev[l].last_line_ok)
+TraceNext == TrBig \/ TrRead \/ TrRewrite \/ TrRewrite2 \/ TrTopo \/ TrTopo2 \/ TrGraph \/ TrConn \/ TrCopy
 TraceSpec == TraceInit /\ [][TraceNext]_<<vars, tid, l>>
 Accepted == (l = Len(Ev) + 1) => PrintT(<<"ACC", Traces[tid].tid>>)
 =============================================================================
